@@ -784,7 +784,12 @@ func (i *IRCServer) generateCaptchaURL(s *Session, purpose string) string {
 		base64.StdEncoding.EncodeToString(mac.Sum(nil)),
 	}, ".")
 
-	u, _ := url.Parse(i.Config.CaptchaURL)
+	u, err := url.Parse(i.Config.CaptchaURL)
+	if err != nil {
+		// An unparsable CaptchaURL must not take down the network: append
+		// the challenge to whatever was configured.
+		return i.Config.CaptchaURL + "#" + parts
+	}
 	if u.Path == "" {
 		u.Path = "/"
 	}
